@@ -1,0 +1,9 @@
+//go:build verif
+
+package ziptrans
+
+// Exports for the verification harness (build tag `verif` only).
+var (
+	UnpackZipForVerif = unpackZip
+	PackZipForVerif   = packZip
+)
